@@ -87,3 +87,21 @@ def witness_cases(ck, prop, repeat=12):
             cases.append({"k": "rule", "id": ck.new_id(), "rule": w["rule"], "docs": [w["doc"]], "sw": [0, w["sw"]],
                           "_kf": entry, "_w": w})
     return cases
+
+
+def corpus_cases(ck, sw, **flags):
+    """Every witness under corpus/kf (of listed AND of repaired findings) as an ordinary case: a
+    repaired defect that comes back is then found by the direct tests like any other input."""
+    import glob
+    out = []
+    for path in sorted(glob.glob(os.path.join(lib.VERIF, "corpus", "kf", "D*.json"))):
+        try:
+            w = json.load(open(path, encoding="utf-8"))
+        except Exception:
+            continue
+        if not isinstance(w, dict) or "rule" not in w or "doc" not in w:
+            continue
+        c = {"k": "rule", "id": ck.new_id(), "rule": w["rule"], "docs": [w["doc"]], "sw": list(sw), "_corpus": w.get("id")}
+        c.update(flags)
+        out.append(c)
+    return out
